@@ -242,10 +242,18 @@ def analyze(args):
                     pairs3.extend(pp)
             goal3 = solve.neq_goal(pairs3)
             if goal3 is not None:
-                r3 = solve.check_sat_forked(goal3, list(it3.assumptions), timeout_s=timeout_s, kind=kind)
+                terms3 = []
+                for k3 in range(len(in_types)):
+                    for p3 in range(3):
+                        terms3.extend(flat_elems(in3[k3][p3]))
+                r3 = solve.check_sat_forked(goal3, list(it3.assumptions), model_terms=terms3, timeout_s=timeout_s, kind=kind)
                 out["queries"].append(dict(name="three_view", verdict=r3.verdict, tactic=r3.tactic, secs=round(r3.secs, 3), note=r3.note))
                 if r3.verdict == "sat":
-                    out["findings"].append(dict(kind="send", text="per-party output differs after optimisation (a Send marker was lost or moved to a node carrying another value)"))
+                    cex3 = None
+                    if r3.model is not None:
+                        pos3 = [0]
+                        cex3 = [[mc.nest_like(in3[k3][p3], r3.model, pos3) for p3 in range(3)] for k3 in range(len(in_types))]
+                    out["findings"].append(dict(kind="send", inputs3=cex3, text="per-party output differs after optimisation (a Send marker was lost or moved to a node carrying another value); per-party inputs %s" % (cex3,)))
                 elif r3.verdict != "unsat":
                     status = "unknown"
             else:
@@ -294,6 +302,20 @@ def main():
         for f in o["findings"]:
             if f["kind"].startswith("rand_"):
                 continue  # reported by C04
+            if f["kind"] == "send" and f.get("inputs3") is not None and not c.get("has_random"):
+                # native replay: three-party executor on the original and on the optimised graph
+                in_types = [T.from_json(j) for j in c["in_types"]]
+                inputs3 = [[vals.enc(t, f["inputs3"][k][p]) for p in range(3)] for k, t in enumerate(in_types)]
+                rr = drv.run_job(dict(ctx=c["prog"], stages=[dict(op="optimize", **{"from": 0})], dump=[],
+                                      party_evals=[dict(ctx=0, inputs=inputs3), dict(ctx=1, inputs=inputs3)]))
+                pe = rr.get("party_evals", [{}, {}])
+                a = [q.get("output") for q in (pe[0].get("parties") or [])]
+                b = [q.get("output") for q in (pe[1].get("parties") or [])]
+                chk.count("three_view_models_replayed")
+                if a == b:
+                    chk.inconc("%s: three-view model did not reproduce in the three-party executor" % c["id"])
+                    continue
+                f = dict(f, text=f["text"] + "; three-party executor: original per-party outputs %s, optimised %s" % (a, b))
             chk.count("finding_" + f["kind"])
             chk.violation("%s|%s" % (f["kind"], c["id"]), "%s: %s" % (c["id"], f["text"]),
                           dict(kind="c06_static", module="symg.check_c06", case={k: v for k, v in c.items() if not k.startswith("_")}, finding=f))
